@@ -39,7 +39,7 @@ def run_threads_case(case):
     tr.enable_recording()
     chooser = S.Scripted(case['schedule']) if case.get('schedule') is not None else \
         (S.RandomChooser(random.Random(case['rand'])) if case.get('rand') is not None else S.Scripted([]))
-    sch = S.Scheduler([trm.__file__.replace('.pyc', '.py')], chooser=chooser, max_steps=60000, watchdog_s=10.0)
+    sch = S.Scheduler([trm.__file__.replace('.pyc', '.py')], chooser=chooser, max_steps=60000, watchdog_s=20.0)
     results = [[] for _ in case['workers']]
     errors = []
 
